@@ -48,7 +48,7 @@ def run(R):
         # ---- error discipline on the line item
         _check_err(R, f, lp, short_name)
         # ---- exactly-once delivery
-        ex = [c for c in PR.calls_matching(f, L.ENGINE_EXEC) if c.bb in lp.body]
+        ex = [c for c in L.calls_reaching(f, L.ENGINE_EXEC) if c.bb in lp.body]
         if len(ex) != 1:
             R.violation("C12.once", short_name + "|count", "%d ExecutionEngine::execute calls inside the line loop of %s (expected 1)"
                         % (len(ex), f.path), [f.loc(lp.header)])
